@@ -236,6 +236,13 @@ def run_case(case, ctx):
         vals = [f[tag](r) for f in fns]
       except OverflowError:
         continue
+      except ZeroDivisionError as e:
+        if 0 < abs(r) < 1e-50:
+          ctx.count("out_of_domain_points")   # a subnormal neighbour of a breakpoint at 0: r**6 underflows to 0 in C/r**6
+          continue
+        et, fn = exc_sig(e)
+        ctx.violation("exception", "%s raised at r=%r: %s %s" % (tag, r, et, e), what="exception", exc=et, func=fn, variant="eval")
+        return
       except Exception as e:
         et, fn = exc_sig(e)
         ctx.violation("exception", "%s raised at r=%r: %s %s" % (tag, r, et, e), what="exception", exc=et, func=fn, variant="eval")
